@@ -443,7 +443,7 @@ class Gen(object):
         return f
 
     def spec(self):
-        d = self.rng.randint(2, self.cfg.max_depth)
+        d = self.rng.randint(min(2, self.cfg.max_depth), self.cfg.max_depth)
         return self.formula(d)
 
 
